@@ -140,6 +140,17 @@ func (w *World) RemoteConfig(store mast.Persist, cache mast.NodeCache) *mast.Rem
 		rc.Marshal, rc.Unmarshal = m, u
 		rc.UnmarshalerUsesRegisteredTypes = true
 	}
+	if rc.KeyCompare == nil && w.Cfg.Cmp == "scaled" {
+		mf := rc.Marshal
+		if mf == nil {
+			mf = json.Marshal
+		}
+		def := mast.DefaultKeyCompare(mf)
+		rc.KeyCompare = func(a, b interface{}) (int, error) {
+			r, err := def(a, b)
+			return 3 * r, err
+		}
+	}
 	if w.WrapMarshal != nil {
 		base := rc.Marshal
 		if base == nil {
